@@ -488,6 +488,20 @@ def gen_edit(rng, spec, cfg, i, mix=None, focus=None):
     been re-linked or recomputed) far more often than uniform drawing would give."""
     mix = mix or EDIT_MIX
     closure_names = set(S.closure(spec))
+    if focus and rng.random() < 0.2:
+        # follow-up: edit one input (numeric, categorical or hourly, drawn uniformly over the object's inputs) of an
+        # object that one of the last operations touched
+        objs = [n for n in dict.fromkeys(reversed(focus)) if n in spec["objs"]][:3]
+        pairs = [(n, a) for n in objs for a, v in spec["objs"][n]["attrs"].items()
+                 if v is not None and v[0] in ("q", "s", "tz", "h") and a not in ("provider", "fixed_nb_of_instances")]
+        if pairs:
+            n, a = rng.choice(pairs)
+            kind = spec["objs"][n]["attrs"][a][0]
+            for _ in range(6):
+                sub = {"q": gen_numeric, "h": gen_hourly}.get(kind, gen_categorical)(rng, spec, cfg, {n}, i)
+                if sub is not None and sub.get("obj") == n and sub.get("attr") == a:
+                    sub["i"] = i
+                    return sub
     if focus and rng.random() < 0.35:
         near = neighbourhood(spec, focus) & closure_names
         if near:
